@@ -695,6 +695,13 @@ namespace bloch::compiler {
         if (annotationToken.type == TokenType::Shots) {
             (void)expect(TokenType::LParen, "Expected opening bracket '('");
             numberOfShots = expect(TokenType::IntegerLiteral, "Number of shots must be an integer");
+            // The loader converts this text with std::stoi, so reject values it cannot hold.
+            try {
+                (void)std::stoi(numberOfShots.value);
+            } catch (...) {
+                throw BlochError(ErrorCategory::Parse, numberOfShots.line, numberOfShots.column,
+                                 "Number of shots is out of range for 'int'");
+            }
             (void)expect(TokenType::RParen, "Expected closing bracket ')'");
         }
         std::unique_ptr<AnnotationNode> annotation = std::make_unique<AnnotationNode>();
